@@ -88,6 +88,34 @@ def minlex_postorder(kids_set, roots):
     return out
 
 
+class _MemoForest(Forest):
+    """lib.model.Forest with the pure per-node queries memoised (same results, computed once per node)."""
+
+    def __init__(self, model, parent):
+        super().__init__(model, parent)
+        self._memo = {}
+
+    def _m(self, key, fn, *a):
+        v = self._memo.get(key)
+        if v is None:
+            v = self._memo[key] = fn(*a)
+        return v
+
+    def descendants(self, u):
+        return self._m(("d", u), Forest.descendants, self, u)
+
+    def path_up(self, u):
+        return self._m(("p", u), Forest.path_up, self, u)
+
+    def samples_below(self, u, sample_set=None):
+        if sample_set is not None:
+            return Forest.samples_below(self, u, sample_set)
+        return self._m(("s", u), Forest.samples_below, self, u)
+
+    def roots(self, threshold=1):
+        return self._m(("r", threshold), Forest.roots, self, threshold)
+
+
 def check_tree(tree, model, opts, deep=True, rng=None, wide=False):
     """Returns a list of (key, message). opts: dict(sample_lists, root_threshold, tracked).
 
@@ -100,8 +128,19 @@ def check_tree(tree, model, opts, deep=True, rng=None, wide=False):
     if not (0 <= left < right <= model.L):
         return [("interval", f"bad interval {left},{right}")]
     x = (left + right) / 2
-    fr = Forest(model, model.forest_at(x))
-    bps = model.breakpoints()
+    if wide:
+        # C01 runs dozens of checks per tree of one (never mutated) model: share the reference computations.
+        # Only the caching differs; the values are those of lib.model.Forest.
+        cache = model.__dict__.setdefault("_treecheck_cache", {})
+        fr = cache.get(("forest", x))
+        if fr is None:
+            fr = cache[("forest", x)] = _MemoForest(model, model.forest_at(x))
+        bps = cache.get("bps")
+        if bps is None:
+            bps = cache["bps"] = model.breakpoints()
+    else:
+        fr = Forest(model, model.forest_at(x))
+        bps = model.breakpoints()
     # (2) interval is a breakpoint pair
     try:
         i = bps.index(left)
@@ -164,6 +203,12 @@ def check_tree(tree, model, opts, deep=True, rng=None, wide=False):
         if tree.num_tracked_samples(u) != nt:
             bad.append(("num_tracked", f"num_tracked_samples({u})={tree.num_tracked_samples(u)} expected {nt} "
                         f"tracked={sorted(tset)} x={x}"))
+        if wide and n > 64 and u % (n // 32) != 0 and len(fr.kids(u)) < 2:
+            continue  # structurally extreme instances: every branching node, a spread of the many leaves / unary nodes
+        if wide and not deep and not opts.get("sample_lists"):
+            # without sample lists samples(u) is a Python-side traversal of the child arrays verified above; it is
+            # compared on every deep check.  With sample lists it reads incrementally maintained state: always.
+            continue
         got = list(tree.samples(u))
         if sorted(got) != sorted(sb):
             bad.append(("samples", f"samples({u})={got} expected {sorted(sb)} sample_lists={opts.get('sample_lists')}"))
@@ -278,6 +323,8 @@ def check_tree(tree, model, opts, deep=True, rng=None, wide=False):
         bad.append(("total_branch_length", f"total_branch_length={tree.total_branch_length} expected {tbl}"))
     times = sorted({model.time(u) for u in range(n)})
     probe = times + [(a + b) / 2 for a, b in zip(times, times[1:])] + [times[0] - 1, times[-1] + 1] if times else [0.0]
+    if len(probe) > 64:  # structurally extreme instances (C01 'big' family): a spread of probe times is enough
+        probe = probe[:: max(1, len(probe) // 48)] + probe[-3:]
     for t in probe:
         e = sum(1 for c, p in fr.parent.items() if c in reach and model.time(c) <= t < model.time(p))
         g = tree.num_lineages(t)
@@ -318,7 +365,15 @@ def check_tree(tree, model, opts, deep=True, rng=None, wide=False):
         bad.append(("sites", f"tree.sites ids {got_sites} expected {exp_sites} in [{left},{right})"))
     if tree.num_sites != len(exp_sites):
         bad.append(("sites", f"num_sites {tree.num_sites} expected {len(exp_sites)}"))
-    exp_muts = [k for j in exp_sites for k in model.site_mutations(j)]
+    if wide:  # same lists as model.site_mutations, built once per model
+        by_site = cache.get("site_muts")
+        if by_site is None:
+            by_site = cache["site_muts"] = {}
+            for k, mu in enumerate(model.mutations):
+                by_site.setdefault(mu[0], []).append(k)
+        exp_muts = [k for j in exp_sites for k in by_site.get(j, [])]
+    else:
+        exp_muts = [k for j in exp_sites for k in model.site_mutations(j)]
     got_muts = [mu.id for mu in tree.mutations()]
     if got_muts != exp_muts:
         bad.append(("mutations", f"tree.mutations ids {got_muts} expected {exp_muts}"))
@@ -472,7 +527,8 @@ def _wide_shallow(tree, model, opts, fr, left, right, tset, tracked):
               ("right_child", tree.right_child_array), ("left_sib", tree.left_sib_array),
               ("right_sib", tree.right_sib_array), ("num_children", tree.num_children_array),
               ("edge", tree.edge_array))
-    nodes = list(range(n + 1)) if n <= 40 else _pick_nodes(n, None, 24) + [n]
+    # an accessor that reads the wrong array is wrong for (nearly) every node: a spread of nodes suffices
+    nodes = list(range(n + 1)) if n <= 6 else [0, n // 3, n // 2, n - 1, n, (tree.index * 7 + 1) % n]
     for name, arr in arrays:
         if len(arr) != n + 1:
             bad.append(("scalar/" + name, f"{name}_array has length {len(arr)}, expected {n + 1}"))
@@ -487,7 +543,7 @@ def _wide_shallow(tree, model, opts, fr, left, right, tset, tracked):
     exp_sites = model.sites_in(left, right)
     if tree.num_sites != len(exp_sites):
         bad.append(("sites", f"num_sites {tree.num_sites} expected {len(exp_sites)} in [{left},{right})"))
-    else:
+    elif len(exp_sites) <= 8:  # (densely decorated msprime instances: the deep check lists them all)
         got_sites = [s.id for s in tree.sites()]
         if got_sites != exp_sites:
             bad.append(("sites", f"tree.sites ids {got_sites} expected {exp_sites} in [{left},{right})"))
@@ -518,7 +574,7 @@ def _wide_deep(tree, model, opts, fr, kid_order, roots, exp_roots, reach, x, lef
     n = model.num_nodes
     vroot = n
     kids = lambda u: kid_order[u]  # noqa: E731
-    some = _pick_nodes(n, rng, 5)
+    some = _pick_nodes(n, rng, 3)
     # (8b) traversal root arguments for the remaining orders, array forms with a root, the levelorder alias
     for u in some + [vroot]:
         e = _subtree_sorted(model, fr, u, n, exp_roots)
@@ -528,9 +584,6 @@ def _wide_deep(tree, model, opts, fr, kid_order, roots, exp_roots, reach, x, lef
         got = list(tree.nodes(u, order="timedesc"))
         if got != e[::-1]:
             bad.append(("traversal", f"nodes({u}, order=timedesc)={got} expected {e[::-1]}"))
-        if list(map(int, tree.timeasc(u))) != e or list(map(int, tree.timedesc(u))) != e[::-1]:
-            bad.append(("traversal", f"timeasc({u})/timedesc({u}) arrays {list(tree.timeasc(u))} {list(tree.timedesc(u))} "
-                        f"expected {e} and its reverse"))
         if u == vroot:
             e = minlex_postorder(lambda v: fr.kids(v), exp_roots) + [vroot]
         else:
@@ -566,6 +619,49 @@ def _wide_deep(tree, model, opts, fr, kid_order, roots, exp_roots, reach, x, lef
             if mu.edge != e:
                 bad.append(("mutation-edge", f"mutation {mu.id} on node {mu.node} at position {s.position}: "
                             f"edge={mu.edge} expected {e}"))
+    # pair queries the base check leaves out: no common ancestor -> path_length is infinite and the two-argument
+    # tmrca / distance_between raise ValueError ("if the nodes do not share a single common ancestor")
+    cand = some + sorted(exp_roots)[:3]
+    for u, v in [(a, b) for a in cand for b in cand if a <= b][:12]:
+        e = fr.mrca(u, v)
+        pl = tree.path_length(u, v)
+        epl = math.inf if e == NULL else fr.depth(u) + fr.depth(v) - 2 * fr.depth(e)
+        if pl != epl:
+            bad.append(("path_length", f"path_length({u},{v})={pl} expected {epl} (mrca {e})"))
+        for name in ("tmrca", "distance_between"):
+            try:
+                g = getattr(tree, name)(u, v)
+                ex = model.time(e) if name == "tmrca" else 2 * model.time(e) - model.time(u) - model.time(v)
+                if e == NULL:
+                    bad.append((name, f"{name}({u},{v})={g} but the nodes share no ancestor (ValueError documented)"))
+                elif not isclose(float(g), float(ex), 1e-12, 1e-12):
+                    bad.append((name, f"{name}({u},{v})={g} expected {ex}"))
+            except ValueError:
+                if e != NULL:
+                    bad.append((name, f"{name}({u},{v}) raised ValueError but the MRCA is {e}"))
+    # the virtual root's documented special values
+    if tree.depth(vroot) != -1 or tree.time(vroot) != math.inf or tree.parent(vroot) != NULL \
+            or tree.edge(vroot) != NULL or tuple(tree.siblings(vroot)) != ():
+        bad.append(("virtual_root", f"depth/time/parent/edge/siblings of the virtual root: {tree.depth(vroot)} "
+                    f"{tree.time(vroot)} {tree.parent(vroot)} {tree.edge(vroot)} {tree.siblings(vroot)}"))
+    if sorted(tree.children(vroot)) != sorted(exp_roots) or tree.num_children(vroot) != len(exp_roots):
+        bad.append(("virtual_root", f"children(virtual_root)={tree.children(vroot)} expected roots {sorted(exp_roots)}"))
+    # b2 with another base of the logarithm: -sum p log_base p over the leaves, p from a uniform random walk
+    if len(exp_roots) == 1:
+        b2 = 0.0
+        stack = [(next(iter(exp_roots)), 1.0)]
+        while stack:
+            v, pr = stack.pop()
+            if not fr.kids(v):
+                b2 -= pr * math.log(pr, 2)
+            for c in fr.kids(v):
+                stack.append((c, pr / len(fr.kids(v))))
+        try:
+            g = float(tree.b2_index(base=2))
+            if not isclose(g, b2, 1e-9, 1e-12) or not isclose(float(tree.b2_index(2)), b2, 1e-9, 1e-12):
+                bad.append(("balance", f"b2_index(base=2) {g} expected {b2}"))
+        except Exception as ex:  # noqa: BLE001
+            bad.append(("balance", f"b2_index(base=2) raised {ex!r}"))
     # interval / span forms
     iv = tree.interval
     if (iv[0], iv[1]) != (left, right) or iv.span != right - left or iv.mid != left + (right - left) / 2:
@@ -614,7 +710,7 @@ def _wide_deep(tree, model, opts, fr, kid_order, roots, exp_roots, reach, x, lef
             ("get_parent_dict()", tree.get_parent_dict(), fr.parent),
             ("num_nodes", tree.num_nodes, n),
             ("get_num_mutations()", tree.get_num_mutations(),
-             sum(len(model.site_mutations(j)) for j in model.sites_in(left, right))),
+             sum(1 for mu in model.mutations if left <= model.sites[mu[0]][0] < right)),
         ]
         if len(exp_roots) == 1:
             al.append(("get_root()", tree.get_root(), next(iter(exp_roots))))
